@@ -67,6 +67,7 @@ func TestC05(t *testing.T) {
 		poolsTouched := map[uint64]bool{}
 		removedOrdersBy := map[uint64]string{}
 		unauthorizedAttempts := 0
+		transplants := 0
 		var cur struct {
 			ok     bool
 			sender types.Address
@@ -74,6 +75,10 @@ func TestC05(t *testing.T) {
 			d      *tx.Transaction
 			owner  map[string]string // candidate key -> pre-state owner
 			ctrl   map[string]string
+			// single-signature transactions: the sender the node recovers, and whether the
+			// independent recovery accepts the signature at all
+			nodeSender types.Address
+			refOK      bool
 		}
 		h.R.H.BeforeTx = func(m *sim.TxMeta) {
 			cur.ok = false
@@ -87,6 +92,21 @@ func TestC05(t *testing.T) {
 			}
 			cur.ok, cur.sender, cur.d = true, s, d
 			cur.auth = true
+			cur.nodeSender, cur.refOK = s, true
+			if d.SignatureType == tx.SigTypeSingle {
+				// who really signed: recovered independently of coreV2/transaction
+				ref, _, ok := sim.RefSender(m.Raw)
+				cur.refOK = ok
+				if ok {
+					cur.sender = ref
+				} else {
+					cur.auth = false
+				}
+				if m.Perturbed == "sig-transplant" {
+					unauthorizedAttempts++
+					transplants++
+				}
+			}
 			if d.SignatureType == tx.SigTypeMulti {
 				acc := h.N.App.CurrentState().Accounts().GetAccount(s)
 				if !acc.IsMultisig() {
@@ -113,6 +133,14 @@ func TestC05(t *testing.T) {
 				return
 			}
 			d := cur.d
+			if d.SignatureType == tx.SigTypeSingle && r.Code == 0 {
+				if !cur.refOK {
+					violation(t, "accepted-with-invalid-signature", h.R, "a transaction was accepted as coming from %s although its signature is not a canonical signature of its hash (%s)", cur.nodeSender.String(), m.Kind+" "+m.Perturbed)
+				}
+				if cur.nodeSender != cur.sender {
+					violation(t, "accepted-for-wrong-signer", h.R, "a transaction signed by %s was executed as coming from %s (%s %s)", cur.sender.String(), cur.nodeSender.String(), m.Kind, m.Perturbed)
+				}
+			}
 			if d.SignatureType == tx.SigTypeMulti && !cur.auth && r.Code == 0 {
 				violation(t, "multisig-accepted-without-authorization", h.R, "multisig transaction from %s accepted although the reference verifier rejects its signature set", cur.sender.String())
 			}
@@ -260,6 +288,7 @@ func TestC05(t *testing.T) {
 			}
 		}
 		sim.S.LabelN("C05/unauthorized-multisig-attempts", unauthorizedAttempts)
+		sim.S.LabelN("C05/signature-transplant-attempts", transplants)
 		sim.S.LabelN("C05/wrong-owner-rejections", h.R.KindsFail["editCand/406"]+h.R.KindsFail["candOn/406"]+h.R.KindsFail["candOff/406"]+h.R.KindsFail["removeOrder/712"]+h.R.KindsFail["mint/206"]+h.R.KindsFail["editCoinOwner/206"])
 		nt := h.R.AcceptedTx > 0 && (unauthorizedAttempts > 0 || h.R.KindsFail["editCand/406"]+h.R.KindsFail["candOn/406"]+h.R.KindsFail["candOff/406"]+h.R.KindsFail["removeOrder/712"]+h.R.KindsFail["mint/206"]+h.R.KindsFail["editCoinOwner/206"] > 0)
 		sim.S.Case("TestC05", nt, sim.HashStrings(h.R.Steps), func() interface{} { return sim.HistorySample(h.R.Steps, 25) })
